@@ -234,7 +234,25 @@ func (l *c13Lat) randDelay(place, w, i int) {
 	}
 }
 
+// stallAt: the "stall<k>" pattern — the consumer takes its first item and then stalls for 30 ms
+// while the producer sends k items, pauses for 4 ms and sends the rest: every buffer between them
+// fills up, the combinator blocks on its output with its own backlog momentarily empty, and the
+// backlog grows again (and the input is closed) before the consumer comes back.
+func (l *c13Lat) stallAt() (int, bool) {
+	if !strings.HasPrefix(l.name, "stall") {
+		return 0, false
+	}
+	k, err := strconv.Atoi(l.name[len("stall"):])
+	return k, err == nil
+}
+
 func (l *c13Lat) producerDelay(i int) {
+	if k, ok := l.stallAt(); ok {
+		if i == k {
+			time.Sleep(4 * time.Millisecond)
+		}
+		return
+	}
 	switch l.name {
 	case "slowprod":
 		if l.hot(i) {
@@ -266,6 +284,12 @@ func (l *c13Lat) workerDelay(w, i int) {
 }
 
 func (l *c13Lat) consumerDelay(i int) {
+	if _, ok := l.stallAt(); ok {
+		if i == 0 {
+			time.Sleep(30 * time.Millisecond)
+		}
+		return
+	}
 	switch l.name {
 	case "slowcons":
 		every := 1
@@ -1215,6 +1239,16 @@ func C13Gen(r *Run) {
 			lat, p := g.latProcs()
 			g.queue(n, lat, p)
 		}
+	}
+	// 6b. stalled consumer around the capacity of the buffers behind each combinator's output
+	// (queue output 50, dual stage channel 100)
+	for _, k := range []int{49, 50, 51, 52, 53, 54} {
+		for _, p := range []int{2, 4} {
+			g.queue(k+40, fmt.Sprintf("stall%d", k), p)
+		}
+	}
+	for _, k := range []int{99, 100, 101, 102, 103} {
+		g.dual(k+60, k%4, fmt.Sprintf("stall%d", k), 4)
 	}
 	// 7. seeded random cases
 	nrand := 150
